@@ -173,7 +173,8 @@ impl History for GraphMapEngine {
         // engine, whose battery compares all pairs of nodes)
         let many = !self.visit && rng.chance(1, 120);
         if many {
-            span = *rng.pick(&[300i32, 1040, 1300]);
+            // (260: a map of 253..256 nodes, around what a u8-indexed Graph can hold)
+            span = *rng.pick(&[260i32, 260, 300, 1040, 1300]);
         }
         let key_lo = -(rng.below(3) as i32);
         let mut disabled = 0u32;
@@ -242,8 +243,12 @@ fn gen_list(rng: &mut Rng, cfg: &Cfg, m: &Model) -> Vec<(Key, Key)> {
 }
 
 fn gen_op(rng: &mut Rng, cfg: &Cfg, m: &Model) -> Op {
-    if cfg.key_hi - cfg.key_lo >= 300 && m.nodes.is_empty() {
-        return Op::BulkKeys((cfg.key_hi - cfg.key_lo - 10) as usize);
+    if cfg.key_hi - cfg.key_lo >= 260 && m.nodes.is_empty() {
+        let span = (cfg.key_hi - cfg.key_lo) as usize;
+        return Op::BulkKeys(if span == 260 { 253 + rng.below(4) } else { span - 10 });
+    }
+    if cfg.key_hi - cfg.key_lo == 260 && rng.chance(1, 4) {
+        return Op::GraphRoundtrip(Width::U8);
     }
     for _ in 0..20 {
         let op = match rng.below(100) {
@@ -814,7 +819,9 @@ fn run<Ty: EdgeType + Clone>(name: &'static str, visit: bool, cfg: &Cfg, mut fee
                 }
                 // a Graph of that index width must be able to hold the map (otherwise into_graph
                 // takes the documented panic of Graph::add_node / add_edge)
-                let width = if m.nodes.len() >= 250 || m.edges.len() >= 250 { if m.nodes.len() >= 60_000 || m.edges.len() >= 60_000 { &Width::U32 } else if *width == Width::U8 { &Width::U16 } else { width } } else { width };
+                // (a u8-indexed Graph holds up to 255 nodes and 255 edges)
+                let width = if m.nodes.len() > 255 || m.edges.len() > 255 { if m.nodes.len() >= 60_000 || m.edges.len() >= 60_000 { &Width::U32 } else if *width == Width::U8 { &Width::U16 } else { width } } else { width };
+                acc.probe_if(*width == Width::U8 && m.nodes.len() == 255, "graphmap_into_u8_graph_with_255_nodes");
                 let r = catch(|| match width {
                     Width::U8 => rt::<Ty, u8>(&g, &m),
                     Width::U16 => rt::<Ty, u16>(&g, &m),
